@@ -107,10 +107,10 @@ claim("C02",
       "End-to-end file-level theorem pending (see evidence.stated_not_proved); kernel write ordering is assumed as the property states.",
       "Coq proof (torn-write case analysis on the frame/record reader) + checked model/code correspondence + crash-image oracle")
 claim("C03",
-      "Coq theorems (PropC03.v). Process-crash model, END TO END under EVERY policy: C03_process_crash - from a persist point (nothing buffered) followed by any further history under any policy, every "
-      "crash image of what had reached the OS opens successfully to the abstract state after some prefix of that history (never older than the persist point, never a mixture), roll-overs, multi-file entries, "
-      "GC and a crash among the unlinks included; C03_persisted_survives - a call that left nothing buffered cannot be undone by any later crash. Power-loss model, event-trace level: FlushAndFsync leaves every "
-      "write synced, the power-loss filter keeps the synced prefix, every unlink comes after flush + sync_data + sync_dir with no write in between. What recovery makes of a power-loss image is decided by the "
-      "checked correspondence on power-loss images under every policy and the persist-point oracle.",
-      "Premises: global invariant, well-formed calls, everything below 2^64 files, no_zero_collision (the property's CRC-collision proviso; satisfiable). Power loss: metadata taken as immediately durable.",
-      "Coq proof (trace shape with buffering, crash-image shape, open on torn streams, induction over persist points) + checked model/code correspondence + persist-point oracle on crash/power-loss images")
+      "Coq theorems (PropC03.v), END TO END under EVERY policy in both loss models: C03_process_crash / C03_power_loss - from a persist point followed by any further history under any policy, every image of "
+      "what had reached the OS (process crash: cut before any event or inside any write) or stable storage (power loss: only writes followed by a sync of their file) opens successfully to the abstract state after "
+      "some prefix of that history (never older than the persist point, never a mixture), roll-overs, multi-file entries, GC and a crash among the unlinks included; C03_persisted_survives / "
+      "C03_fsynced_survives_power_loss - a call that flushed (resp. flushed and fsynced) cannot be undone by any later crash (resp. power loss); plus the trace invariants (every unlink after flush + sync_data + "
+      "sync_dir with no write in between). Tied to the code by differential execution on process-crash and power-loss images under every policy and a persist-point oracle.",
+      "Premises: global invariant, well-formed calls, everything below 2^64 files, no_zero_collision (the property's CRC-collision proviso; satisfiable). Power-loss model: metadata taken as immediately durable.",
+      "Coq proof (trace shape with buffering, image shape, power-loss image = earlier crash image, open on torn streams, induction over persist points) + checked model/code correspondence + persist-point oracle")
